@@ -140,3 +140,41 @@ Lemma generate_uses_model_target e ho c src :
    Ok {| g_out := hdr ++ rest; g_framed := framed; g_target := target; g_trace := rev (l_trace l);
          g_tail := tail; g_sim := sim2; g_src := l_src l |}).
 Proof. reflexivity. Qed.
+
+(* ---- the generation loop's choice: get_valid_opcodes and weighted_choice ---- *)
+Lemma src_get_valid_eq c s : src_get_valid (can_emit c s) (row (c_version c)) = get_valid_opcodes c s.
+Proof. reflexivity. Qed.
+
+Lemma src_choice_eq valid s : valid <> [] ->
+  src_weighted_choice valid s =
+  (do (i, s1) <- choose_index (N.of_nat (length valid)) s; do o <- nth_res valid i; Ok (o, s1)).
+Proof.
+  intros Hne. destruct valid as [|o0 rest]; [contradiction|].
+  unfold src_weighted_choice, mbind, m_choose_index, m_index, bind.
+  destruct (choose_index (N.of_nat (length (o0 :: rest))) s) as [[i s1]|p]; [|reflexivity].
+  destruct (nth_res (o0 :: rest) i); reflexivity.
+Qed.
+
+(* the fallback of weighted_choice on an empty list is never used: the loop leaves first *)
+Lemma src_choice_empty s : src_weighted_choice [] s = Ok (NONE, s).
+Proof. reflexivity. Qed.
+
+(* one iteration of `for _ in 0..target_opcodes`, written with the source's pieces *)
+Lemma loop_body_src e ho c l : l_stopped l = false ->
+  loop_body e ho c (Ok l) =
+  (let valid := src_get_valid (can_emit c (l_sim l)) (row (c_version c)) in
+   match valid with
+   | [] => Ok {| l_sim := l_sim l; l_src := l_src l; l_out := l_out l; l_trace := l_trace l; l_stopped := true |}
+   | _ => do (o, s1) <- src_weighted_choice valid (l_src l);
+          do (r, s2) <- emit_and_process e ho c (l_sim l) o s1;
+          let (em, sim') := r in
+          Ok {| l_sim := sim'; l_src := s2; l_out := e_final em :: l_out l;
+                l_trace := (valid, o, em) :: l_trace l; l_stopped := false |}
+   end).
+Proof.
+  intros Hs. unfold loop_body. cbn [bind]. rewrite Hs. rewrite src_get_valid_eq. cbv zeta.
+  destruct (get_valid_opcodes c (l_sim l)) as [|o0 rest] eqn:Ev; [reflexivity|].
+  rewrite (src_choice_eq (o0 :: rest) (l_src l)) by discriminate.
+  destruct (choose_index (N.of_nat (length (o0 :: rest))) (l_src l)) as [[i s1]|p]; [|reflexivity]. cbn [bind].
+  destruct (nth_res (o0 :: rest) i) as [o|p]; reflexivity.
+Qed.
